@@ -11,6 +11,7 @@ EXPLANATION = (
     "named *rollback*, *savepoint*, *restore*, *poison*, *abort*, *discard*, or taking the transaction out of its handle); (3) ERRFLOW in the "
     "write executor — no error of a write-capable call is discarded (`.or_else(|_| ..)`, `.ok()`, `let _ =`). Statement semantics are not decided."
     " C13.4: in the DELETE executors the refusing safety check is never reachable from a tombstone call (validate, then mutate)."
+    " C13.6 (shared with C22.3): every row-level expression evaluation in the write executors is preceded by the runtime-compatibility pre-pass for that row, so a statement that must fail on a later row does fail instead of committing a partial update."
 )
 
 EXEC_NAMES = ("execute_mixed", "execute_write", "execute_write_with_rows")
@@ -33,6 +34,7 @@ def run(ctx):
     ctx.rule("C13.1", "auto-commit: commit is dominated by the Ok arm of the statement execution")
     ctx.rule("C13.2", "explicit transaction: the error path of a statement run on a caller-owned transaction rolls back or poisons it")
     ctx.rule("C13.3", "write executor never discards an error of a write-capable call")
+    write_eval_guard_rule(ctx)
 
     n1 = n2 = 0
     for i, b in sorted(F.bodies.items()):
@@ -184,3 +186,28 @@ def run(ctx):
                        "a property map that can fail at run time is evaluated after %s already created something for the same row: the failed MERGE leaves the "
                        "created node staged in an explicit transaction" % sorted({m.name.split("::")[-1] for m in before}), e.loc())
     ctx.floor("C13.5", "property-map evaluations in MERGE create executors", n5, 3)
+
+
+WRITE_MODULES = ("create_delete_ops", "write_path", "write_support", "foreach_ops", "write_orchestration", "merge_execution", "merge_helpers",
+                 "merge_execute_support", "write_dispatch", "write_forwarders")
+
+
+def write_eval_guard_rule(ctx, rid="C13.6"):
+    """a statement that must fail does fail: write executors evaluate user expressions only behind the per-row runtime-compatibility pre-pass (shared with C22.3)"""
+    from .. import evalguard
+    from ..mirutil import site_key
+    F = ctx.facts
+    ctx.rule(rid, "in the write executors every row-level expression evaluation is preceded by the runtime-compatibility pre-pass for that row: otherwise a "
+             "type error on a later row evaluates to null, the statement reports success and its partial (and for SET destructive) effect is committed")
+    n = 0
+    for b, c, g in evalguard.scan(F):
+        root = b.root or b.id
+        parts = root.split("::")
+        if len(parts) < 3 or parts[2] not in WRITE_MODULES:
+            continue
+        n += 1
+        ctx.instance(rid, "%s: %s guarded=%s" % (b.id, site_key(c), g))
+        ctx.oblige(g, rid, "%s:%s:unguarded-evaluation" % (b.id, site_key(c)),
+                   "a write executor evaluates a user expression for a row without the runtime-compatibility pre-pass for that row: a statement that has to fail "
+                   "on that row succeeds with null instead and commits the other rows", c.loc(), sample={"fn": b.id, "site": c.loc()})
+    ctx.floor(rid, "evaluation sites in write executors", n, 10)
